@@ -206,6 +206,8 @@ fn churn_stream(rep: &mut Report, rng: &mut Rng, n: usize) {
         // so that one timestamp bucket holds live leading rows followed by rows that get superseded
         let fill_by_rule = rng.chance(1, 2);
         if fill_by_rule {
+            // a rule that last ran JUST before the bucket was written needs exactly the rows of that bucket as its delta
+            if rule_first { cmds.push("(run copy 1)".into()); }
             cmds.push(format!("(relation seed (i64)) (ruleset fill) (rule ((seed x)) ((set (f x) {})) :ruleset fill)", if merge == "min" { 200 } else { 0 }));
             cmds.push((0..10).map(|k| format!("(seed {})", 900 + k)).chain((0..churn).map(|k| format!("(seed {})", 1000 + k))).collect::<Vec<_>>().join(" "));
             cmds.push("(run fill 1)".into());
